@@ -7,7 +7,7 @@ from ..core import Check, derive_seed
 
 def run(check):
     check.rule = ("the runner is rebuilt with -race (instrumented engine files included) and executes: generated run-mode cases of all shapes with failures, "
-                  "random delay plans, cancellation at logical instants, stop conditions (before start, while running, before deployment), overlapping Execute calls on one prepared workflow, and the parallel-API workload "
+                  "random delay plans, cancellation at logical instants, stop conditions (before start, while running, before deployment), overlapping Execute calls on one prepared workflow, outputs that need no step next to steps being launched, input schemas with references between their objects under overlapping runs and parallel loop items, and the parallel-API workload "
                   "(several goroutines doing FromYAML+Prepare+Execute of equal texts, sharing one step registry), also as the very first action of a fresh process; GORACE=halt_on_error=0 log_path=..., reports "
                   "are counted from the log files and de-duplicated by the innermost engine frame pair; a report is a violation if either stack has a frame of "
                   "go.flow.arcalot.io/engine outside the harness; non-trivial/distinct = distinct (workload family, shape) executed under the detector")
@@ -84,6 +84,37 @@ def run(check):
             prog = Program([fe], {"success": {"d": Expr(Ref("loop", "outputs", "success", "data"))}}, gen.BASE_INPUT)
             g = {"program": prog, "scripts": gen.make_scripts([fe], {}), "input": {"tag": "T", "items": [{"tag": "i%d" % q} for q in range(16)]}, "shape": "functions-in-parallel-loop-items", "family": "functions", "outcome": {}}
             case, sem = runfam.build_case("c17-n%04d" % j, g, no_events=True)
+        items.append((case, sem, g))
+    # an output that needs no step (workflow input and constants only) next to steps that are being launched; and input schemas
+    # whose objects refer to each other, used by overlapping runs and by parallel loop items (the schema objects are shared)
+    from ..model import InputSchema
+    for j in range(check.pick(90, 400)):
+        rng = random.Random(derive_seed(check.seed, "c17-early", j))
+        if j % 3 == 0:
+            k = rng.choice([1, 2, 4, 8])
+            steps = [gen.plugin_step("p%d" % q, Expr(In("tag"))) for q in range(k)]
+            outs = {"early": {"t": Expr(In("tag")), "c": "constant"}}
+            if rng.random() < 0.5:
+                outs["success"] = {"p": gen.tagref("p0")}
+            g = {"program": Program(steps, outs, gen.BASE_INPUT), "scripts": gen.make_scripts(steps, {}), "input": {"tag": "T"}, "shape": "output-without-steps/%d-steps" % k, "family": "output-ready-at-start", "outcome": {}}
+            case, sem = runfam.build_case("c17-e%04d" % j, g, no_events=True)
+            if j % 2:
+                case["runs"] = [{"input": g["input"], "parallel": True, "tag": "r%d" % q} for q in range(3)]
+        elif j % 3 == 1:
+            isch = InputSchema({"tag": {"type": "string"}, "cfg": {"type": ("ref", "Cfg")}, "more": {"type": ("list", ("ref", "Cfg")), "required": False}}, objects={"Cfg": {"tag": {"type": "string"}, "n": {"type": "integer", "required": False, "default": 1}}})
+            a = gen.plugin_step("a", Expr(In("cfg", "tag")), extra_input={"n": Expr(In("cfg", "n"))})
+            g = {"program": Program([a], {"success": {"a": gen.tagref("a")}}, isch), "scripts": gen.make_scripts([a], {}), "input": {"tag": "T", "cfg": {"tag": "c"}, "more": [{"tag": "m"}]},
+                 "shape": "self-referencing-input-schema/overlapping-runs", "family": "self-referencing-input", "outcome": {}}
+            case, sem = runfam.build_case("c17-e%04d" % j, g, no_events=True)
+            case["runs"] = [{"input": {"tag": "T%d" % q, "cfg": {"tag": "c%d" % q}}, "parallel": True, "tag": "r%d" % q} for q in range(rng.choice([4, 8]))]
+        else:
+            ssch = InputSchema({"tag": {"type": "string"}, "cfg": {"type": ("ref", "Cfg"), "required": False}}, root="Item", objects={"Cfg": {"k": {"type": "string"}}})
+            sub = Program([gen.plugin_step("w0", Expr(In("tag")), src="sub_w0")], {"success": {"t": gen.tagref("w0")}}, ssch, name="sub.yaml")
+            nn = rng.choice([8, 16])
+            fe = Step("loop", "foreach", sub=sub, items=[{"tag": "i%d" % q, "cfg": {"k": "v"}} for q in range(nn)], parallelism=rng.choice([4, 8]))
+            g = {"program": Program([fe], {"success": {"d": Expr(Ref("loop", "outputs", "success", "data"))}}, gen.BASE_INPUT), "scripts": gen.make_scripts([fe], {}), "input": {"tag": "T"},
+                 "shape": "self-referencing-input-schema/parallel-loop-items", "family": "self-referencing-input", "outcome": {}}
+            case, sem = runfam.build_case("c17-e%04d" % j, g, no_events=True)
         items.append((case, sem, g))
     # stop conditions reaching a step while it waits for input, while it runs, and while it waits for its deployment configuration
     from . import c04
